@@ -8,10 +8,19 @@ spec = importlib.util.spec_from_file_location('manifest_meta', os.path.join(os.p
 meta = importlib.util.module_from_spec(spec); spec.loader.exec_module(meta)
 props = [json.loads(l)['id'] for l in open(os.path.join(os.path.dirname(__file__), '..', 'properties.jsonl'))]
 checks = []
+sys.path.insert(0, os.path.join(os.path.dirname(__file__), '..'))
+from props import PROPS
 for pid in props:
-    if pid not in meta.CHECKS:
+    if pid not in PROPS:
         continue
-    m = meta.CHECKS[pid]
+    cfg = PROPS[pid]
+    m = meta.CHECKS.get(pid) or {
+        'level': cfg['level'],
+        'text': cfg.get('explanation', '') + ' Linking lemmas: ' + '; '.join(cfg.get('lemmas', []) or ['none']),
+        'design_ref': 'section 6 (%s)' % pid,
+        'note': 'Trusted: ' + '; '.join(cfg.get('trusted_base', []) + ['VC generator and its Python semantics', 'z3/cvc5'])
+                + '. Assumptions: ' + '; '.join(cfg.get('assumptions', []) or ['none']),
+        'technique': 'contract-based deductive verification (VCs from the real AST, z3+cvc5) + bounded stand-in'}
     checks.append({
         'property_id': pid,
         'quick_cmd': 'python3-vt check %s --tier quick' % pid,
@@ -35,7 +44,7 @@ man = {
     'checks': checks,
     'notes': meta.NOTES,
     'not_applicable': [{'property_id': p, 'reason': meta.NOT_APPLICABLE.get(p, 'check not built yet (build in progress; DESIGN.md section 11 gives the order)')}
-                       for p in props if p not in meta.CHECKS],
+                       for p in props if p not in PROPS],
 }
 json.dump(man, open(os.path.join(os.path.dirname(__file__), '..', 'MANIFEST.json'), 'w'), indent=1)
 print('checks:', [c['property_id'] for c in checks])
